@@ -831,6 +831,8 @@ def pn_gen(ctx, count):
         for x in range(1, n + 1):
             if x == a or rng.random() < 0.85:
                 ops.append(("att", [2 * x - 1, "me", 0]))
+            if rng.random() < 0.35:
+                ops.append(("att", [2 * x, "me", 0]))      # a worker that is on 'me' AND in the topic (SkipTopic decides)
         if grp:
             ops.append(("new", [2 * b, 1, 0]))
             if not stranger:
@@ -866,7 +868,10 @@ def pn_gen(ctx, count):
                 if mv is not None and mv.attached(dev2, tk) and rng.random() < 0.5:
                     o.append(("det", [dev2, ref]))
             elif shape == "perm":
-                o.append(("want", [2 * a, ref, rng.choice([29, 29, 27, 21])]))     # JWPA / JRPA / JWA
+                if rng.random() < 0.6:
+                    o.append(("want", [2 * a, ref, rng.choice([29, 29, 27, 21])]))     # a gives up R / W / R+P: JWPA / JRPA / JWA
+                else:
+                    o.append(("given", [2 * b, bref, a, rng.choice([29, 29, 27])]))    # b takes R / W away from a
             return o
         plan.append(act)
         for j in range(rng.randint(3, 6)):
@@ -909,548 +914,6 @@ def pn_gen(ctx, count):
                 elif r < 0.79:
                     o.append(("disc", [rng.choice([2 * a - 1, dev2])]))
                 return o
-            plan += [probe, after]
-        scns.append(sc)
-        plans[sc.id] = plan
-    for r in range(max(len(p) for p in plans.values())):
-        rc, model, err = T.run_model(ctx, scns, tag="gen")
-        for sc in scns:
-            if r < len(plans[sc.id]):
-                blocks = model.get(sc.id) or []
-                v = View(blocks[-1]) if blocks else None
-                sc.ops += plans[sc.id][r](rng, sc, v)
-    return scns
-
-
-# ---------------------------------------------------------------------------
-# measured distribution of the notes (on the implementation's trace)
-
-def pos_label(seq, rd, rc, last):
-    if seq < 0:
-        return "seq<0"
-    if seq == 0:
-        return "seq=0"
-
-    def c(a, b):
-        return "<" if a < b else ("=" if a == b else ">")
-    far = "" if seq <= last else ("+1" if seq == last + 1 else "++")
-    return "%sread %srecv %slast%s" % (c(seq, rd), c(seq, rc), c(seq, last), far)
-
-
-REQUIRED = ["seq<0", "seq=0", "<read <recv <last", "=read <recv <last", ">read <recv <last", ">read =recv <last",
-            ">read >recv <last", ">read >recv =last", ">read >recv >last+1", ">read >recv >last++"]
-
-
-def distribution(scns, impl):
-    strict = {w: {p: {} for p in REQUIRED} for w in ("read", "recv")}
-    allc, classes, actors = {}, {}, {}
-
-    def bump(d, *path):
-        for p in path[:-1]:
-            d = d.setdefault(p, {})
-        d[path[-1]] = d.get(path[-1], 0) + 1
-    for sc in scns:
-        views = _views.get(sc.id) or [View(b) for b in impl[sc.id]]
-        for k in range(1, len(sc.ops)):
-            fault, kind, args = sc.ops[k]
-            if kind != "note":
-                continue
-            prev, v = views[k - 1], views[k]
-            origin, what, seq = args[0], args[1], int(args[2])
-            actor = sc.sessions.get(origin)
-            pud = prev.cusers.get(actor) if prev.loaded else None
-            row = prev.subs.get(actor)
-            rd, rc = (pud["read"], pud["recv"]) if pud else ((row["read"], row["recv"]) if row and not row["deleted"] else (0, 0))
-            last = prev.cache.get("lastid", 0) if prev.loaded else prev.topic.get("seqid", 0)
-            mode = eff(pud["want"], pud["given"]) if pud else (eff(row["want"], row["given"]) if row and not row["deleted"] else None)
-            att = "attached" if (prev.loaded and origin in prev.csess) else ("detached" if prev.loaded else "detached, topic not loaded")
-            others = [s for s, u in prev.csess.items() if u == actor and s != origin]
-            perm = "not subscribed" if mode is None else ("R" if "R" in mode else "") + ("W" if "W" in mode else "") or "neither R nor W"
-            # outcome as observed
-            out = []
-            cur = v.cusers.get(actor) if v.loaded else None
-            if pud and cur:
-                mv = [m for m in ("read", "recv") if cur[m] != pud[m]]
-                if mv:
-                    out.append("cache:" + "+".join(mv))
-            crow = v.subs.get(actor)
-            if row and crow:
-                mv = [m for m in ("read", "recv") if crow[m] != row[m]]
-                if mv:
-                    out.append("store:" + "+".join(mv))
-            ninfo = len([1 for s, t in v.frames if t.startswith("info ")])
-            if ninfo:
-                out.append("relayed")
-            out += [t for s, t in v.frames if t.startswith("ctrl ")]
-            if fault != "N" and v.b.get("calls"):
-                out.append("store call failed")
-            outcome = " ".join(out) or "dropped silently"
-            wk = what if what in ("read", "recv", "kp") else "unknown kind"
-            pos = pos_label(seq, rd, rc, last) if wk != "kp" else ("seq=0" if seq == 0 else "seq!=0")
-            bump(allc, wk, pos, outcome)
-            bump(actors, "%s, %s%s" % (att, perm, ", user has another attached session" if others else ""), wk, outcome)
-            bump(classes, note_class(prev, origin, actor, what, seq)[0], outcome)
-            if wk in strict and att == "attached" and "R" in (mode or "") and 2 <= rd and rd + 3 <= rc and rc + 3 <= last and pos in strict[wk]:
-                bump(strict[wk], pos, outcome)
-    empty = ["%s / %s" % (w, p) for w in strict for p in REQUIRED if not strict[w][p]]
-    return {"note_distribution": {
-        "how": "every note of the run, classified on the implementation's state before it: kind x position of seq relative to the sender's cached read/recv and lastID x observed outcome",
-        "reader_attached_read_lt_recv_lt_last_gaps_ge_2": strict,
-        "empty_required_cells": empty,
-        "all_notes": allc,
-        "by_sender": actors,
-        "by_demanded_handling": classes}}
-
-
-def frame_f(t):
-    return t.startswith("info ") or t.startswith("desc ") or t.startswith("sub ") or t.startswith("ctrl 202")
-
-
-def line_f(kind, l):
-    import re
-    if kind == "store":
-        if l.startswith("sub "):
-            return re.sub(r" del=\S+", "", re.sub(r"^(sub \d+) \S+", r"\1", l))
-        if l.startswith("topic "):
-            return l.split(" delid=")[0]
-        return None
-    if l.startswith("user "):
-        return re.sub(r" del=\S+", "", re.sub(r" online=\S+", "", re.sub(r"^(user \d+) \S+", r"\1", l)))
-    if l.startswith("lastid"):
-        return l.split(" delid=")[0]
-    return None
-
-
-def relay_audience(ctx):
-    """Clause 'relayed notifications reach only attached sessions of users with read permission - never the
-    originating session, never channel readers, typing notes never any session of the typist': the group-topic
-    model of Sys/Topic.v has no channel subscriptions, so this clause is judged on the fan-out slice built for C02
-    (coq/Sys/Fanout.v info_fanout; theorems re-stated in PropC09.v as c09_relay_*): the same driver
-    (zz_verif_c02_test.go: grp / channel-enabled grp / p2p topics with note ops), the same extracted model, and the
-    info-* laws of tools/props/c02.py evaluated on the IMPLEMENTATION's frames."""
-    from props import c02
-    if ctx.replay:
-        rp = json.load(open(ctx.replay))
-        if not (isinstance(rp.get("replay"), dict) and rp["replay"].get("relay_part")):
-            return
-        scns = [c02.Scn.from_replay(rp["replay"]["scenario"], "replay")]
-    else:
-        scns = [c02.mk(*c, sid="c%d" % i) for i, c in enumerate(c02.CORPUS)]
-        scns += c02.gen_scenarios(ctx, 110 if ctx.tier == "quick" else 2000, prefix="r")
-    rc, impl, log = c02.run_impl(ctx, scns, tag="relay")
-    bad = next((sc for sc in scns if sc.id not in impl or len(impl[sc.id]) != len(sc.ops)), None)
-    if rc != 0 or bad is not None:
-        ctx.violation("monitor", "server-crashed", "the server process died or stopped answering in the relay-audience part (scenario %s): %s"
-                      % (bad.id if bad else "?", log[-1200:]), {"relay_part": True, "scenario": bad.replay() if bad else {}})
-        return
-    rc, model, err = c02.run_model(ctx, scns)
-    seen = {}
-    notes = 0
-    for sc in scns:
-        notes += sum(1 for o in sc.ops if o[0] == "note")
-        for law, k, detail in c02.monitor(sc, impl[sc.id]):
-            if law.startswith("info-"):
-                seen.setdefault(law, []).append((sc, k, detail))
-    known = {f["key"] for f in ctx.load_findings() if f["property"] == "C02"}
-    for law, lst in seen.items():
-        if law in known:
-            continue       # a defect recorded under C02 with exactly this law name
-        sc, k, detail = min(lst, key=lambda x: len(x[0].ops))
-        small = sc.clone(sc.ops[:k + 1]) if hasattr(sc, "clone") else sc
-        ctx.violation("monitor", law, "law %s fails on the implementation's note relays (%d scenarios): %s" % (law, len(lst), detail),
-                      {"relay_part": True, "scenario": small.replay(), "law": law, "detail": detail})
-    mism = 0
-    if rc == 0:
-        for sc in scns:
-            mo = model.get(sc.id, [])
-            for k, o in enumerate(sc.ops):
-                if o[0] == "note" and k < len(mo) and k < len(impl[sc.id]):
-                    d = c02.diff_op(sc, k, impl[sc.id][k], mo[k])
-                    if d:
-                        mism += 1
-                        if not seen:
-                            ctx.violation("corr", "correspondence-relay", "fan-out model and implementation disagree on a note relay: op %d %s: %s"
-                                          % (k, o, json.dumps(d, default=str)[:600]), {"correspondence": "note relay audience (Fanout.v info_fanout)",
-                                                                                       "relay_part": True, "scenario": sc.replay()})
-                        break
-    ctx.coverage["relay_audience"] = {"scenarios": len(scns), "note_requests": notes, "law_failures": sum(len(v) for v in seen.values()),
-                                      "correspondence_mismatches": mism}
-
-
-# ---------------------------------------------------------------------------
-# notes on 'me' + p2p + group topics: unsubscribed (deleted) parties, sessions on 'me' only, the {info} copies
-# routed through the 'me' topics.  Model: coq/Sys/Pres.v + Sys/PresNoteC09.v (theorems c09_pres_* of PropC09.v);
-# driver: harness/overlay/server/zz_verif_c09x_test.go (the C10 presence driver's scenarios, sessions and dump,
-# plus full {info} frames, adapter calls and marks); runner: harness/runner/r_c09x.ml.
-
-PN_R, PN_W, PN_P = 2, 4, 8
-
-
-def pn_parse(lines):
-    """c10.parse_blocks plus the lines of the c09x driver/runner: I (info frames of a note), K (adapter calls),
-    E (replies without id), LC/LS (lastID / seqid), MC/MS (cached / stored marks)"""
-    from props import c10
-    res = c10.parse_blocks(lines)
-    cur, op = None, None
-    for ln in lines:
-        if not ln:
-            continue
-        w = ln.split()
-        if w[0] == "scn":
-            cur, op, k = res.get(w[1]), None, -1
-        elif w[0] == "op" and cur is not None:
-            k += 1
-            op = cur[k] if k < len(cur) else None
-            if op is not None:
-                op.update({"info": [], "calls": None, "err": [], "marks": []})
-        elif w[0] == "end":
-            cur, op = None, None
-        elif op is None:
-            continue
-        elif w[0] == "I":
-            op["info"].append(ln[2:])
-        elif w[0] == "K":
-            op["calls"] = (int(w[1]), w[2] if len(w) > 2 else "")
-        elif w[0] == "E":
-            op["err"].append(ln)
-        elif w[0] in ("LC", "LS", "MC", "MS"):
-            op["marks"].append(ln)
-    return res
-
-
-class PNView:
-    """one quiescent point: the C10 view plus marks, {info} frames in full, adapter calls"""
-    def __init__(self, b):
-        from props import c10
-        self.b = b
-        self.v = c10.View(b) if b is not None else None
-        self.frames = self.v.frames if self.v else []            # (sid, top, src, what) as strings
-        self.topics = self.v.topics if self.v else {}
-        self.rows = self.v.rows if self.v else {}
-        self.cusers = {}     # (topic, user) -> dict(want, given, deleted): the live topic's perUser entry
-        self.info = []       # (sid, top, src, what, from, seq or None)
-        self.mc, self.ms, self.lc, self.ls = {}, {}, {}, {}
-        self.calls = b.get("calls") if b else None
-        self.ctrl = list(b["ctrl"]) + list(b.get("err", [])) if b else []
-        if b is None:
-            return
-        for l in b["state"]:
-            w = l.split()
-            if w[0] == "U":
-                kv = dict(x.split("=", 1) for x in w if "=" in x)
-                self.cusers[(w[1], int(w[2]))] = dict(want=int(kv["want"]), given=int(kv["given"]), deleted=kv.get("deleted") == "1")
-        for l in b.get("info", []):
-            w = l.split()
-            kv = dict(x.split("=", 1) for x in w if "=" in x)
-            self.info.append((int(w[0]), w[1], w[2], w[3][2:], kv.get("from", "?"), int(kv["seq"]) if "seq" in kv else None))
-        for l in b.get("marks", []):
-            w = l.split()
-            if w[0] == "LC":
-                self.lc[w[1]] = int(w[2])
-            elif w[0] == "LS":
-                self.ls[w[1]] = int(w[2])
-            elif w[0] == "MC":
-                self.mc[(w[1], int(w[2]))] = (int(w[3]), int(w[4]))
-            elif w[0] == "MS":
-                self.ms[(w[1], int(w[2]))] = (int(w[3]), int(w[4]))
-
-    def attached(self, sid, tk):
-        return tk in self.topics and any(s == sid for (s, _, _) in self.topics[tk]["sess"])
-
-    def sub_state(self, tk, u):
-        """-> (stored row live, cached entry live, effective mode as stored or None, as cached or None)"""
-        r, c = self.rows.get((tk, u)), self.cusers.get((tk, u))
-        sl = r is not None and not r["deleted"]
-        cl = c is not None and not c["deleted"]
-        return sl, cl, (r["want"] & r["given"]) if sl else None, (c["want"] & c["given"]) if cl else None
-
-
-def pn_note_class(prev, sid, u, tk, what, seq):
-    """What the property demands for a {note} that reached the server, judged on the IMPLEMENTATION's own state
-    before the request.  -> (class, why): invalid / unsubscribed / unpermitted / stale are to be dropped silently;
-    valid is accepted; other = the live topic and the store disagree about the subscription (C08's business):
-    no demand."""
-    if what not in ("read", "recv", "kp"):
-        return "invalid", "unknown kind"
-    if what in ("read", "recv") and seq <= 0:
-        return "invalid", "seq <= 0"
-    if what == "kp" and seq != 0:
-        return "invalid", "typing note with a seq"
-    if tk not in prev.topics:
-        return "invalid", "topic not loaded"
-    if seq > prev.lc.get(tk, 0):
-        return "invalid", "seq beyond the latest message (%d)" % prev.lc.get(tk, 0)
-    sl, cl, sm, cm = prev.sub_state(tk, u)
-    if not sl and not cl:
-        r = prev.rows.get((tk, u))
-        return "unsubscribed", ("subscription deleted" if r is not None else "never subscribed")
-    if sl != cl:
-        return "other", ""
-    need = PN_W if what == "kp" else PN_R
-    if not (sm & need) and not (cm & need):
-        return "unpermitted", "no W" if what == "kp" else "no R"
-    if bool(sm & need) != bool(cm & need):
-        return "other", ""
-    if what != "kp":
-        mark = prev.mc.get((tk, u), (0, 0))[0 if what == "read" else 1]
-        if seq <= mark:
-            return "stale", "%s mark is %d" % (what, mark)
-    return "valid", ""
-
-
-def pn_not_silent(prev, v, tk):
-    out = []
-    if v.frames or v.info:
-        out.append("frames %s" % ([" ".join(f) for f in v.frames] + ["I " + " ".join(str(x) for x in i) for i in v.info]))
-    if v.ctrl:
-        out.append("reply %s" % v.ctrl)
-    if v.calls and v.calls[0]:
-        out.append("%d adapter call(s) [%s]" % v.calls)
-    for name, a, b in (("stored marks", prev.ms, v.ms), ("cached marks", prev.mc, v.mc), ("lastID", prev.lc, v.lc), ("seqid", prev.ls, v.ls)):
-        ch = sorted((k, a.get(k), b.get(k)) for k in set(a) | set(b) if a.get(k) != b.get(k))
-        if ch:
-            out.append("%s changed: %s" % (name, ch))
-    return out
-
-
-def pn_own_name(tk, ru):
-    """the recipient's own name for the topic, as the frames are printed"""
-    if tk[0] == "g":
-        return tk
-    a, b = (int(x) for x in tk[1:].split("."))
-    if ru not in (a, b):
-        return None
-    return "u%d" % (b if ru == a else a)
-
-
-def pn_monitor(sc, views):
-    """C09 on the implementation's trace of a presence scenario.  -> [(law, op index, detail)]"""
-    from props import c10
-    res = []
-    prev = PNView(None)
-    for k, v in enumerate(views):
-        kind, args = sc.ops[k]
-        actor = sc.sessions.get(int(args[0])) if args and str(args[0]).lstrip("-").isdigit() and kind not in ("unload", "unload1", "unload2") else None
-        acked = any(c.split()[1] == "202" for c in v.b["ctrl"] if c.split()[0] == str(args[0])) if kind == "pub" else False
-        # ---- marks: bounds, never backwards, who moves them (subscriptions that are live before and after)
-        for (tk, u), (rd, rc) in v.ms.items():
-            r1, r0 = v.rows.get((tk, u)), prev.rows.get((tk, u))
-            if r1 is None or r1["deleted"]:
-                continue
-            top = v.ls.get(tk, 0)
-            if not (0 <= rd <= top and 0 <= rc <= top):
-                res.append(("stored-marks-bounds", k, "topic %s user %d stored read=%d recv=%d latest=%d" % (tk, u, rd, rc, top)))
-            if r0 is None or r0["deleted"] or (tk, u) not in prev.ms:
-                continue
-            p = prev.ms[(tk, u)]
-            if rd < p[0] or rc < p[1]:
-                res.append(("marks-monotone", k, "topic %s user %d stored marks moved back: read %d->%d recv %d->%d by %s %s"
-                            % (tk, u, p[0], rd, p[1], rc, kind, args)))
-            if (rd, rc) != p and not (actor == u and (kind == "note" or (kind == "pub" and acked))):
-                res.append(("mark-moved-by-other", k, "topic %s: stored marks of user %d changed %s->%s by %s %s of user %s"
-                            % (tk, u, p, (rd, rc), kind, args, actor)))
-        for (tk, u), (rd, rc) in v.mc.items():
-            c1, c0 = v.cusers.get((tk, u)), prev.cusers.get((tk, u))
-            if c1 is None or c1["deleted"]:
-                continue
-            top = v.lc.get(tk, 0)
-            if not (0 <= rd <= top and 0 <= rc <= top):
-                res.append(("cached-marks-bounds", k, "topic %s user %d cached read=%d recv=%d lastid=%d" % (tk, u, rd, rc, top)))
-            if c0 is None or c0["deleted"] or (tk, u) not in prev.mc or tk not in prev.topics:
-                continue
-            p = prev.mc[(tk, u)]
-            if rd < p[0] or rc < p[1]:
-                res.append(("cached-marks-monotone", k, "topic %s user %d cached marks moved back: read %d->%d recv %d->%d by %s %s"
-                            % (tk, u, p[0], rd, p[1], rc, kind, args)))
-            if (rd, rc) != p and not (actor == u and (kind == "note" or (kind == "pub" and acked))):
-                res.append(("mark-moved-by-other", k, "topic %s: cached marks of user %d changed %s->%s by %s %s of user %s"
-                            % (tk, u, p, (rd, rc), kind, args, actor)))
-        # ---- notes
-        if kind == "note" and not v.b["skipped"]:
-            sid, ref, what, seq = int(args[0]), args[1], args[2], int(args[3])
-            u = sc.sessions[sid]
-            tk = c10.rel_topic(u, ref)
-            cls, why = pn_note_class(prev, sid, u, tk, what, seq)
-            if cls in ("invalid", "unsubscribed", "unpermitted", "stale"):
-                bad = pn_not_silent(prev, v, tk)
-                if bad:
-                    law = "note-from-unsubscribed-user-silent" if cls == "unsubscribed" else cls + "-note-silent"
-                    res.append((law, k, "%s note %s seq=%d (%s) from session %d of user %d to %s was not dropped silently: %s"
-                                % (cls, what, seq, why, sid, u, tk, "; ".join(bad)[:700])))
-            # a mark of the sender moved: the sender is subscribed with R, as the live topic or the store sees it
-            moved = any(a.get((tk, u)) != b.get((tk, u)) for a, b in ((prev.ms, v.ms), (prev.mc, v.mc)) if (tk, u) in a and (tk, u) in b)
-            if moved:
-                sl, cl, sm, cm = prev.sub_state(tk, u)
-                if not ((sl and sm & PN_R) or (cl and cm & PN_R)):
-                    res.append(("note-needs-read", k, "a mark of user %d in %s moved by a note although the user has no live subscription with R "
-                                "(stored live=%s mode=%s, cached live=%s mode=%s)" % (u, tk, sl, sm, cl, cm)))
-            for (rs, top, src, wh, frm, sq) in v.info:
-                ru = sc.sessions.get(rs)
-                if rs == sid:
-                    res.append(("info-not-to-originating-session", k, "the {info %s} of the note came back to the originating session %d (on %s, src %s)"
-                                % (wh, rs, top, src)))
-                if frm != str(u):
-                    res.append(("info-names-true-sender", k, "{info %s} to session %d on %s names user %s as the sender; the note was sent by user %d"
-                                % (wh, rs, top, frm, u)))
-                own = pn_own_name(tk, ru)
-                if own is not None and not ((top == "me" and src == own) or (top == own and src == own)):
-                    res.append(("info-names-recipients-topic", k, "{info %s} to session %d of user %d is labelled topic=%s src=%s; the user's name for %s is %s"
-                                % (wh, rs, ru, top, src, tk, own)))
-                if wh == "kp" and ru == u:
-                    res.append(("kp-not-to-typist", k, "typing note reached session %d of the typist (on %s)" % (rs, top)))
-                if wh != what:
-                    res.append(("info-kind", k, "a {note %s} was relayed as {info %s} to session %d" % (what, wh, rs)))
-                modes = [x.v.eff(tk, ru) for x in (prev, v) if x.v is not None]
-                if ru is not None and not any(m is not None and m & PN_R for m in modes):
-                    res.append(("info-readers-only", k, "{info %s} reached session %d of user %d who has no live subscription with R to %s (modes before/after %s)"
-                                % (wh, rs, ru, tk, modes)))
-                if top != "me" and not (prev.attached(rs, tk) or v.attached(rs, tk)):
-                    res.append(("info-attached-only", k, "{info %s} labelled as coming from inside %s reached session %d which is not attached to it" % (wh, tk, rs)))
-            for (rs, top, src, wh) in v.frames:
-                if int(rs) == sid and wh in ("read", "recv"):
-                    res.append(("pres-not-to-originating-session", k, "{pres %s} about the note's own mark came back to the originating session %d" % (wh, sid)))
-        else:
-            inf = [f for f in v.frames if f[3].startswith("i:")]
-            if inf:
-                res.append(("info-only-from-notes", k, "{info} frames %s produced by %s %s" % (inf, kind, args)))
-        prev = v
-    return res
-
-
-def pn_marks(mv, tk, u):
-    """(read, recv, lastid, loaded) of user u in topic tk in the MODEL's state"""
-    if mv is None:
-        return 0, 0, 0, False
-    loaded = tk in mv.topics
-    rd, rc = mv.mc.get((tk, u)) or mv.ms.get((tk, u)) or (0, 0)
-    return rd, rc, (mv.lc.get(tk) if loaded else mv.ls.get(tk)) or 0, loaded
-
-
-def pn_aim(rng, rd, rc, last, accept):
-    """a seq for a recv note: inside (recv, lastID] when `accept`, else on or beyond a boundary"""
-    if accept and rc < last:
-        return rng.choice([rc + 1, last, last, rng.randint(rc + 1, last)])
-    return rng.choice([rc, rc, last + 1, last + 1, 0, -1, max(1, rc - 1), 1, last + rng.choice([2, 100000]), rd])
-
-
-def pn_gen(ctx, count):
-    """Model-guided note scenarios on 'me' + p2p (+ group) topics.  Users a, b (+ c); user x has the observer session
-    2x-1 (on 'me' only), the worker session 2x (attaches to the topics) and user a a second device 2n+1.  Skeleton:
-    observers on 'me', a and b attach to their p2p topic (in some: a group owned by b with a and sometimes c as
-    members), a publishes once, b several times (so that a's recv mark is below lastID).  Then, by shape:
-      unsub     a unsubscribes ({leave unsub}; p2p entry kept, deleted) while b keeps the topic loaded
-      gunsub    a leaves the group for good / is evicted by the owner / was never invited
-      detached  a's worker detaches (the subscription stays); a's sessions on 'me' only acknowledge receipt
-      perm      a gives up R (or W)
-    followed by probes: notes from a's observer / worker / second device with seq aimed (from the extracted MODEL's
-    marks) inside (recv, lastID] - the ones a correct server must drop only BECAUSE of the deleted subscription, or
-    must relay without echo - and on every boundary; interleaved with b's publishes and own notes, a's
-    re-subscription, attach/detach of observers."""
-    from props import c10
-    rng = ctx.rng
-    scns, plans = [], {}
-    shapes = ["unsub", "detached", "unsub", "detached", "gunsub", "perm", "unsub", "detached", "gunsub"]
-    for i in range(count):
-        sc = c10.Scn("n%d" % i)
-        sc.profile = "pn"
-        shape = shapes[i % len(shapes)]
-        n = 3 if (shape == "gunsub" or rng.random() < 0.3) else 2
-        sc.nusers = n
-        a, b = rng.choice([(1, 2), (2, 1)])
-        c = 3
-        for x in range(1, n + 1):
-            sc.sessions[2 * x - 1] = x
-            sc.sessions[2 * x] = x
-        dev2 = 2 * n + 1
-        sc.sessions[dev2] = a
-        grp = shape == "gunsub"
-        ref = "g1" if grp else "p%d" % b          # a's name for the topic
-        bref = "g1" if grp else "p%d" % a
-        tk = c10.rel_topic(a, ref)
-        stranger = grp and i % 3 == 2
-        ops = []
-        for x in range(1, n + 1):
-            if x == a or rng.random() < 0.85:
-                ops.append(("att", [2 * x - 1, "me", 0]))
-        if grp:
-            ops.append(("new", [2 * b, 1, 0]))
-            if not stranger:
-                ops.append(("given", [2 * b, "g1", a, 47]))
-                ops.append(("att", [2 * a, "g1", 0]))
-            ops.append(("given", [2 * b, "g1", c, rng.choice([47, 47, 39])]))
-            if rng.random() < 0.6:
-                ops.append(("att", [2 * c, "g1", 0]))
-        else:
-            first = rng.choice([a, b])
-            ops.append(("att", [2 * first, "p%d" % (b if first == a else a), 0]))
-            ops.append(("att", [2 * (b if first == a else a), "p%d" % first, 0]))
-            if rng.random() < 0.3:
-                ops.append(("att", [dev2, ref, 0]))
-        if not stranger and rng.random() < 0.7:
-            ops.append(("pub", [2 * a, ref]))
-        for _ in range(rng.randint(2, 4)):
-            ops.append(("pub", [2 * b, bref]))
-        sc.ops = ops
-        plan = []
-
-        def act(rng, sc, mv, shape=shape, a=a, b=b, c=c, ref=ref, bref=bref, stranger=stranger, dev2=dev2, tk=tk):
-            rd, rc, last, loaded = pn_marks(mv, tk, a)
-            o = []
-            if rng.random() < 0.3 and rc < last and not stranger and mv is not None and mv.attached(2 * a, tk):
-                o.append(("note", [2 * a, ref, "recv", rng.randint(rc + 1, max(rc + 1, last - 1))]))   # a genuine partial acknowledgement first
-            if shape == "unsub":
-                o.append(("unsub", [2 * a, ref]))
-            elif shape == "gunsub" and not stranger:
-                o.append(rng.choice([("unsub", [2 * a, ref]), ("evict", [2 * b, "g1", a])]))
-            elif shape == "detached":
-                o.append(("det", [2 * a, ref]))
-                if mv is not None and mv.attached(dev2, tk) and rng.random() < 0.5:
-                    o.append(("det", [dev2, ref]))
-            elif shape == "perm":
-                o.append(("want", [2 * a, ref, rng.choice([29, 29, 27, 21])]))     # JWPA / JRPA / JWA
-            return o
-        plan.append(act)
-        for j in range(rng.randint(3, 6)):
-            def probe(rng, sc, mv, j=j, shape=shape, a=a, b=b, ref=ref, bref=bref, dev2=dev2, tk=tk):
-                rd, rc, last, loaded = pn_marks(mv, tk, a)
-                o = []
-                sids = [2 * a - 1, 2 * a - 1, 2 * a, dev2]
-                sid = sids[0] if j == 0 else rng.choice(sids)
-                att = mv is not None and mv.attached(sid, tk)
-                r = rng.random()
-                if att and r < 0.5:
-                    what = rng.choice(["read", "kp", "kp", "read", "xx"])
-                    seq = 0 if (what == "kp" and rng.random() < 0.85) else pn_aim(rng, rc, rd, last, rng.random() < 0.6)
-                    o.append(("note", [sid, ref, what, seq]))
-                else:
-                    o.append(("note", [sid, ref, "recv", pn_aim(rng, rd, rc, last, j == 0 or rng.random() < 0.65)]))
-                if rng.random() < 0.2:
-                    o.append(o[0])                    # the same note again
-                return o
-
-            def after(rng, sc, mv, shape=shape, a=a, b=b, ref=ref, bref=bref, dev2=dev2, tk=tk):
-                rd, rc, last, loaded = pn_marks(mv, tk, b)
-                r = rng.random()
-                o = []
-                if r < 0.25:
-                    o.append(("pub", [2 * b, bref]))
-                elif r < 0.40 and rc < last:
-                    o.append(("note", [2 * b, bref, rng.choice(["recv", "read"]), rng.randint(rc + 1, last)]))
-                elif r < 0.47:
-                    o.append(("note", [2 * b, bref, "kp", 0]))
-                elif r < 0.57:
-                    o.append(("att", [rng.choice([2 * a, dev2]), ref, 0]))      # a comes back (re-subscribes when it had left)
-                elif r < 0.64:
-                    o.append((rng.choice(["det", "att"]), [rng.choice([2 * a - 1, 2 * b - 1]), "me"] + [0]))
-                elif r < 0.70:
-                    o.append(("det", [rng.choice([2 * a, dev2, 2 * b]), rng.choice([ref, bref])]))
-                elif r < 0.75:
-                    o.append(("want", [2 * b, bref, rng.choice([23, 31, 29])]))   # b mutes / un-mutes / gives up R
-                elif r < 0.79:
-                    o.append(("disc", [rng.choice([2 * a - 1, dev2])]))
-                # fix up ops whose session does not match the reference (det of b's session with a's ref etc.)
-                return [x for x in o if not (x[0] in ("det",) and len(x[1]) > 1 and x[1][1] in (ref, bref) and ref != bref and
-                                             ((sc.sessions[x[1][0]] == a) != (x[1][1] == ref)))]
             plan += [probe, after]
         plan.append(lambda rng, sc, mv: [("unloadall", [])])
         scns.append(sc)
@@ -1542,8 +1005,8 @@ def pres_notes(ctx):
         scns = [sc]
     else:
         scns = [s for s in c10.fixed_cases() if s.profile == "rm"]
-        scns += pn_gen(ctx, 90 if quick else 1500)
-        for i in range(25 if quick else 500):
+        scns += pn_gen(ctx, 120 if quick else 1500)
+        for i in range(30 if quick else 500):
             scns.append(c10.gen_rm(ctx.rng, "rm%d" % i))
         for sc in scns:
             sc.ops = [(k, [str(x) for x in a]) for k, a in sc.ops]
